@@ -25,6 +25,7 @@ import (
 	"sort"
 	"strings"
 	"sync"
+	"time"
 
 	"verif/harness/casefile"
 	"verif/harness/coqfmt"
@@ -413,6 +414,12 @@ func main() {
 		fmt.Fprintln(os.Stderr, err)
 		os.Exit(1)
 	}
+	t0 := time.Now()
+	phase := map[string]float64{}
+	mark := func(name string) {
+		phase[name] = time.Since(t0).Seconds()
+		t0 = time.Now()
+	}
 	r := rng.New(*seed)
 	nGen, sets, perShard := 5, quickSets, 400
 	if *tier == "thorough" {
@@ -541,6 +548,7 @@ func main() {
 	}
 	wg.Wait()
 
+	mark("generate+names")
 	// 3. registry + build (a unit whose generated code does not compile is dropped and reported)
 	writeRegistry := func() error {
 		var imp, body bytes.Buffer
@@ -620,6 +628,7 @@ func main() {
 		}
 	}
 
+	mark("go build")
 	// 4. first round of commands: constants and NewX / InitDefault
 	type pend struct {
 		kind string
@@ -729,6 +738,7 @@ func main() {
 		os.Exit(1)
 	}
 
+	mark("driver runs")
 	// 6. cases, one writer per program
 	meta := struct {
 		Total  int      `json:"total"`
@@ -986,6 +996,8 @@ func main() {
 		fmt.Fprintln(os.Stderr, err)
 		os.Exit(1)
 	}
+	mark("write cases")
+	fmt.Printf("c06: phases (s): %v\n", phase)
 	fmt.Printf("c06: %d programs (%d corpus, %d generated), %d units, %d cases, %d rejected by the implementation, %d units not compiling\n",
 		st.Programs, st.CorpusPrograms, st.GeneratedProgs, st.Units, meta.Total, st.RejectedByImpl, st.UnitsNotCompiled)
 }
